@@ -8,12 +8,12 @@ LEVEL = "exploration"
 RULE = ("(a) exhaustive small scope: all 256 subsets of an 8-key universe as dictionaries (array of exactly n+1 entries, so touching "
         "anything behind the end marker is an ASan report) x 21 probe keys x 4 flag bytes against a linear scan; (b) random dictionaries "
         "up to 3000 entries with hit / neighbour / random lookups; (c) a counting type on every entry of dictionaries of 0..40 entries, "
-        "through CODictObjInit and through CONodeInit; (d) typed access: width x direct/referenced x plain/node-id-relative x node id "
+        "through CODictObjInit and through CONodeInit; (c3) 24 system dictionaries (1003h of every depth, 1005h/1006h, 1008h, 1014h, 1016h with 0..3 entries, 1017h, 1200h, PDO records, domain): the Init function of every system type - found through the public type structure and counted by the compiler's function-entry hook (-finstrument-functions, stack sources unchanged) - has to run once per entry of that type during CONodeInit; (d) typed access: width x direct/referenced x plain/node-id-relative x node id "
         "{1,64,127} x all 8/16-bit values, boundary + random 32-bit values, wrong-width accessors; (e) buffer access with every length "
         "0..4000 on domains/strings of 8 sizes in exact-size user buffers; (f) continued access (COObjRd/WrBufStart + ...Cont) in random chunks that run up to and beyond the end of exact-size domains/strings; distinct non-trivial = lookups with a hit + typed + buffer cases")
 ASSUMPTIONS = ["dictionaries are sorted, unique and end-marked (precondition in the statement)",
                "buffer API used on domains and strings only"]
-VARIANTS = [("asan", ("dictcheck.c",), "dictcheck", {})]
+VARIANTS = [("asan", ("dictcheck.c",), "dictcheck", {"extra_flags": "-finstrument-functions"})]
 
 
 def plan(tier, seed):
@@ -73,6 +73,8 @@ def finish(total, tier):
     p = []
     if c["small_scope_dictionaries"] != 512:
         p.append("small-scope enumeration incomplete (%d of 512 dictionaries)" % c["small_scope_dictionaries"])
+    if c["init_hook_silent"] or c["init_system_dictionaries"] < 24 or c["init_hook_calls"] < 1000:
+        p.append("function-entry hook of the init-once check did not observe the initialisation (%d dictionaries, %d calls seen)" % (c["init_system_dictionaries"], c["init_hook_calls"]))
     if c["typed_cases"] < 100000:
         p.append("typed-access cases: %d" % c["typed_cases"])
     return p
